@@ -316,5 +316,53 @@ Proof.
       destruct Hy as [[A B]|(A & B & C)]; [congruence|]. exfalso. apply (C j Hj Nj). unfold slot_at. congruence.
     + rewrite nth_upd_eq in E by lia. rewrite nth_upd_ne in E, Ne by auto.
       destruct Hy as [[A B]|(A & B & C)]; [congruence|]. exfalso. apply (C i Hi Ni). unfold slot_at. congruence.
-    + rewrite !nth_upd_ne in E, Ne by auto. apply i_uniq0; auto.
+    + rewrite (nth_upd_ne _ n i) in E, Ne by auto. rewrite (nth_upd_ne _ n j) in E by auto. apply i_uniq0; auto.
+Qed.
+
+(* ---------- ghost trace ---------- *)
+Definition isghost (o : out) : bool :=
+  match o with GArm _ _ _ _ | GFinish _ _ _ _ _ _ _ | GEvalStart _ _ | GEvalEnd _ => true | _ => false end.
+Lemma noghost_false o : noghost o -> isghost o = false.
+Proof. destruct o; cbn; auto; contradiction. Qed.
+Lemma in_ghost_app add l o : Forall noghost add -> isghost o = true -> In o (add ++ l) -> In o l.
+Proof.
+  intros F G H. apply in_app_or in H. destruct H; auto.
+  rewrite Forall_forall in F. apply F in H. apply noghost_false in H. congruence.
+Qed.
+Fixpoint fins (l : list out) : list (Z * Z) :=
+  match l with
+  | [] => []
+  | GFinish _ ch _ t0 _ _ _ :: t => (ch, t0) :: fins t
+  | _ :: t => fins t
+  end.
+Lemma fins_app a b : fins (a ++ b) = fins a ++ fins b.
+Proof. induction a as [|o a IH]; cbn; auto. destruct o; cbn; auto. f_equal; auto. Qed.
+Lemma fins_noghost add : Forall noghost add -> fins add = [].
+Proof. induction 1 as [|o a H F IH]; cbn; auto. destruct o; cbn in *; auto; contradiction. Qed.
+Lemma in_fins l ch t0 : In (ch, t0) (fins l) -> exists tcb tg dur u0 u, In (GFinish tcb ch tg t0 dur u0 u) l.
+Proof.
+  induction l as [|o l IH]; cbn; [contradiction|]. intros H.
+  assert (R : In (ch, t0) (fins l) -> exists tcb tg dur u0 u, In (GFinish tcb ch tg t0 dur u0 u) (o :: l)).
+  { intros H'. destruct (IH H') as (a & b & c0 & d & e & F); exists a, b, c0, d, e; right; exact F. }
+  destruct o; auto.
+  cbn in H. destruct H as [E|H]; auto.
+  injection E as <- <-. do 5 eexists. left; reflexivity.
+Qed.
+
+Record Tr (s : st) : Prop := {
+  tr_fin : forall tcb ch tg t0 dur u0 u, In (GFinish tcb ch tg t0 dur u0 u) (outs s) ->
+     (dur - 1) * 1000 < tcb - t0 /\ 0 < dur /\ tcb <= now s /\ In (GArm t0 ch dur tg) (outs s) /\
+     forall x, In x (slots s) -> active x = true -> s_chan x = ch -> tcb <= g_t0 x;
+  tr_arm : forall x, In x (slots s) -> active x = true ->
+     In (GArm (g_t0 x) (s_chan x) (g_dur x) (s_target x)) (outs s);
+  tr_uniq : NoDup (fins (outs s))
+}.
+Lemma Tr_passive s s' : passive s s' -> Tr s -> Tr s'.
+Proof.
+  intros [] []. destruct pa_outs0 as (add & E & F).
+  constructor; rewrite ?E, ?pa_slots0.
+  - intros * H. apply in_ghost_app in H; auto. destruct (tr_fin0 _ _ _ _ _ _ _ H) as (A & B & C & D & G).
+    repeat split; auto; try lia. apply in_or_app; auto.
+  - intros x H A. apply in_or_app; right; auto.
+  - rewrite fins_app, fins_noghost by auto. auto.
 Qed.
